@@ -99,6 +99,11 @@ def check(ctx):
                 ctx.holds('C15.S1', inst + ' is reached with no protected write before it', r['site'])
                 clean += 1
                 continue
+            if r.get('implicit'):
+                # the miss of a literal dispatch table under a computed key (BUCKETS[int(order.direction)]): whether the key can fall outside the table depends on
+                # the values the key takes, which this analysis does not bound; it is not one of the explicit refusals the clause is about
+                ctx.undecided('C15.S1', inst + ' is reached with no protected write before it', r['site'], 'possible miss of a literal table under a computed key')
+                continue
             first = r['writes'][0]
             kinds = sorted({PROTECTED.get(w[0].split(' ')[0], w[0]) for w in r['writes']})
             sig = raise_signature(ctx.M, ('raise', r['exc'], r['site'], r['fn'], r.get('owner')))
